@@ -2758,15 +2758,17 @@ func (r *repoT) saveToStore(db storage.OrderedKeyValueDB) error {
 	if db == nil {
 		return fmt.Errorf("cannot save repo to nil store")
 	}
-	r.RLock()
 	compression, err := dvid.NewCompression(dvid.LZ4, dvid.DefaultCompression)
 	if err != nil {
 		return err
 	}
+	// r.GobEncode read-locks the repo itself; holding the read lock here as well deadlocks as
+	// soon as a writer queues up between the two acquisitions.
 	serialization, err := dvid.Serialize(r, compression, dvid.CRC32)
 	if err != nil {
 		return err
 	}
+	r.RLock()
 	tk := r.id.Bytes()
 	r.RUnlock()
 
